@@ -144,6 +144,23 @@ def unit_scheme(ctx, schemes, n_gen):
             ctx.sample({"scheme": s, "bits_per_symbol": b})
 
 
+def unit_cross_instance(ctx, family):
+    """All option combinations of one scheme family live in ONE process and are used interleaved, in both orders:
+    instances must not influence each other (module- or class-level caches keyed too coarsely would)."""
+    schemes = [s for s in mc.all_schemes() if s["scheme"] == family or (family == "dpsk" and s["scheme"] in ("dbpsk", "dqpsk"))]
+    built = [(s, *mc.build(s)) for s in schemes]
+    rng = np.random.RandomState(ctx.seed + 31)
+    for order_name, seq in (("forward", built), ("reverse", built[::-1]), ("forward_again", built)):
+        for s, mod, dem in seq:
+            b = mc.bits_per_symbol(s)
+            cell = {**s, "mode": "cross_instance"}
+            bits = (rng.rand(3, 12 * b) < 0.5).astype(np.float32)
+            run_seq(ctx, s, mod, dem, bits, cell, False, "cross_instance_" + order_name)
+            if mc.kind(s) == "memoryless" and b > 1:
+                run_seq(ctx, s, mod, dem, mc.all_groups(b).reshape(-1), cell, False, "cross_instance_" + order_name)
+    ctx.sample({"family": family, "instances_in_one_process": len(built), "orders": ["forward", "reverse", "forward_again"]})
+
+
 def units(tier, seed):
     T = tier == "thorough"
     sch = mc.all_schemes()
@@ -151,4 +168,6 @@ def units(tier, seed):
     for i, s in enumerate(sch):
         us.append(Unit("scheme_" + "_".join(f"{k}{v}" for k, v in s.items()), "c05:unit_scheme", {"schemes": [s], "n_gen": 200 if T else 25},
                        4 if s.get("order", 2) >= 64 or mc.kind(s) != "memoryless" else 1))
+    for fam in ("psk", "qam", "pam", "dpsk", "qpsk", "oqpsk", "pi4qpsk"):
+        us.append(Unit("cross_instance_" + fam, "c05:unit_cross_instance", {"family": fam}, 2))
     return us
